@@ -734,6 +734,18 @@ class CallGraph(object):
                             f = repo.method(cls, prefix + str(t), required=False)
                             if f:
                                 out.add(f)
+                # getattr(self, <name taken from a table / a conditional expression of constants>): every string constant of the
+                # function and of the class-level tables of its class that names a method of the class (an over-approximation)
+                elif isinstance(tgt, ast.Name) and tgt.id == 'self' and fi.cls is not None and not (isinstance(key, ast.Attribute) and key.attr == 'method_name'):
+                    cname = self.self_class if (self.self_class and repo.has_cls(self.self_class) and repo.is_subclass(self.self_class, fi.cls.name)) else fi.cls.name
+                    strs = set(nd.value for nd in ast.walk(fi.node) if isinstance(nd, ast.Constant) and isinstance(nd.value, str))
+                    for c_ in repo.mro(cname):
+                        for cn in getattr(c_, 'class_consts', {}).values():
+                            strs.update(nd.value for nd in ast.walk(cn) if isinstance(nd, ast.Constant) and isinstance(nd.value, str))
+                    for nm in sorted(strs):
+                        f = repo.method(cname, nm, required=False) if nm.isidentifier() else None
+                        if f:
+                            out.add(f)
                 # getattr(coder/state, statement.method_name): every name recorded by get_func_name()
                 elif isinstance(key, ast.Attribute) and key.attr == 'method_name':
                     for rec_cls, names in recorded_method_names(repo).items():
